@@ -591,9 +591,28 @@ def cfgs_for(o, thorough):
 
 
 def correspondence(ctx, res, case_records):
-    """HOOK for the model correspondence (integrator): for every record run the Conc model of the operation with the
-    write lock `held` as in record['case']['lock'] and compare result and event sequence (record['events'])."""
-    return
+    """Trace correspondence: the event sequence of the call under test on a plain Cache -- with its failed BEGIN
+    attempts, the removal of the value file it had already written when it gives up, and every page of a bulk removal as
+    one transaction -- must be a path of the stage automaton of coq/model/ConcTrace.v (`accepts`), i.e. the timeout path
+    AtBegin -> TimeoutRm -> return of the micro-step machine and nothing else."""
+    import tracecorr
+    traces = []
+    for ri, rec in enumerate(case_records):
+        case = rec['case']
+        if case.get('fam') != 'cache' or len(rec.get('events', [])) >= 80:
+            continue
+        r = rec.get('result') or ()
+        timed_out = tuple(r[:2]) == ('exc', 'Timeout')
+        tags = tracecorr.tags_from_shorts(rec['events'], timed_out=timed_out)
+        traces.append(((ri, case.get('op'), case.get('lock'), case.get('cfg'), rec['events']), tags, False))
+    bad, errors = tracecorr.check_traces('c14tr', traces)
+    for e in errors:
+        res.disagreements.append(fw.Violation('model-eval', 'stage automaton evaluation failed: ' + e[-300:], {}, 'correspondence'))
+    res.traces_validated += len(traces) - len(bad)
+    for t in bad[:3]:
+        res.disagreements.append(fw.Violation('stage_order', 'the event sequence of cache.%s (lock %s, settings %s) is not a path of the stage machine: %s'
+                                              % (t[0][1], t[0][2], t[0][3], t[0][4]), {'case': case_records[t[0][0]]['case'], 'events': t[0][4], 'tags': t[1]},
+                                              'correspondence'))
 
 
 def run(ctx, big=False):
